@@ -526,6 +526,23 @@ func FuzzCheck[C any](t *testing.T, prop, sub string, f func(*Ctx, C) error, c C
 // path as a generated case. It is the thorough tier's way to let coverage feedback steer the
 // structured generators; failures are written as replay files of that sub-check.
 func FuzzSub[C any](f *testing.F, prop string, s Sub[C]) {
+	// starting corpus: fixed pseudo-random byte strings long enough for the generator to draw a
+	// complete case from (an empty corpus makes the fuzzer grow its inputs from nothing, and a
+	// generator that runs out of bytes rejects the input)
+	for k := uint64(1); k <= 24; k++ {
+		b := make([]byte, 512<<(k%6))
+		x := k*0x9E3779B97F4A7C15 + 1
+		for i := range b {
+			x ^= x << 13
+			x ^= x >> 7
+			x ^= x << 17
+			b[i] = byte(x >> 24)
+			if k%3 == 0 && i%5 != 0 {
+				b[i] = 0 // sparse inputs: rapid reads small values, i.e. the generators' first alternatives
+			}
+		}
+		f.Add(b)
+	}
 	f.Fuzz(rapid.MakeFuzz(func(t *rapid.T) {
 		c := s.Gen(t)
 		ctx := &Ctx{}
